@@ -43,6 +43,41 @@ fn digest(ed: bool) -> MessageDigest {
     }
 }
 
+const KU_DIGITAL_SIGNATURE: u8 = 1;
+const KU_KEY_CERT_SIGN: u8 = 2;
+const KU_CRL_SIGN: u8 = 4;
+
+/// extensions of a generated certificate: basicConstraints (None = no extension, Some(ca)), the path length
+/// constraint, the key usage bits (0 = no extension)
+#[derive(Clone, Copy)]
+struct Shape {
+    bc: Option<bool>,
+    pathlen: Option<u32>,
+    ku: u8,
+}
+
+impl Shape {
+    const CA: Shape = Shape { bc: Some(true), pathlen: None, ku: KU_KEY_CERT_SIGN | KU_CRL_SIGN };
+    const LEAF: Shape = Shape { bc: None, pathlen: None, ku: KU_DIGITAL_SIGNATURE };
+    /// a CA certificate that RFC 5280 lets issue the `below` CA certificates under it: the usual one, or one with
+    /// keyCertSign only, without key usage extension, with more usages, with a sufficient path length constraint
+    fn valid_ca(r: &mut Prng, below: u32) -> Shape {
+        let ku = *r.pick(&[
+            KU_KEY_CERT_SIGN | KU_CRL_SIGN,
+            KU_KEY_CERT_SIGN | KU_CRL_SIGN,
+            KU_KEY_CERT_SIGN,
+            0,
+            KU_KEY_CERT_SIGN | KU_CRL_SIGN | KU_DIGITAL_SIGNATURE,
+        ]);
+        let pathlen = match r.below(4) {
+            0 => Some(below),
+            1 => Some(below + 1 + r.below(3) as u32),
+            _ => None,
+        };
+        Shape { bc: Some(true), pathlen, ku }
+    }
+}
+
 #[allow(clippy::too_many_arguments)]
 fn make_cert(
     subject: &str,
@@ -50,7 +85,7 @@ fn make_cert(
     subject_key: &PKey<Private>,
     issuer_key: &PKey<Private>,
     ed: bool,
-    ca: Option<bool>,
+    shape: Shape,
     nb: u64,
     na: u64,
     serial: u32,
@@ -71,18 +106,33 @@ fn make_cert(
     let (tb, ta) = (Asn1Time::from_unix(nb as i64).ok()?, Asn1Time::from_unix(na as i64).ok()?);
     b.set_not_before(&tb).ok()?;
     b.set_not_after(&ta).ok()?;
-    match ca {
+    match shape.bc {
         Some(true) => {
-            b.append_extension(BasicConstraints::new().critical().ca().build().ok()?).ok()?;
-            b.append_extension(KeyUsage::new().critical().key_cert_sign().crl_sign().build().ok()?).ok()?;
+            let mut bc = BasicConstraints::new();
+            bc.critical().ca();
+            if let Some(n) = shape.pathlen {
+                bc.pathlen(n);
+            }
+            b.append_extension(bc.build().ok()?).ok()?;
         }
         Some(false) => {
             b.append_extension(BasicConstraints::new().critical().build().ok()?).ok()?;
-            b.append_extension(KeyUsage::new().critical().digital_signature().build().ok()?).ok()?;
         }
-        None => {
-            b.append_extension(KeyUsage::new().critical().digital_signature().build().ok()?).ok()?;
+        None => {}
+    }
+    if shape.ku != 0 {
+        let mut ku = KeyUsage::new();
+        ku.critical();
+        if shape.ku & KU_DIGITAL_SIGNATURE != 0 {
+            ku.digital_signature();
         }
+        if shape.ku & KU_KEY_CERT_SIGN != 0 {
+            ku.key_cert_sign();
+        }
+        if shape.ku & KU_CRL_SIGN != 0 {
+            ku.crl_sign();
+        }
+        b.append_extension(ku.build().ok()?).ok()?;
     }
     b.sign(issuer_key, digest(ed)).ok()?;
     let x: X509 = b.build();
@@ -125,10 +175,13 @@ pub fn do_x509_case(w: &mut World, a: u64, b: u64, c: u64) -> VResult<bool> {
     let window = |r: &mut Prng| (base + r.below(2000), base + 3000 + r.below(100_000));
     let (Some(root_key), Some(other_key)) = (key(ed), key(ed)) else { return Ok(false) };
     let rw = window(&mut r);
-    let Some(root) = make_cert("sim root", "sim root", &root_key, &root_key, ed, Some(true), rw.0, rw.1, 1) else {
+    // (shapes come from their own generator: the rest of the case is drawn as before)
+    let mut rs = Prng::new(mix(&[w.seed, 0x5a9e, a]));
+    let root_shape = Shape::valid_ca(&mut rs, n_int as u32);
+    let Some(root) = make_cert("sim root", "sim root", &root_key, &root_key, ed, root_shape, rw.0, rw.1, 1) else {
         return Ok(false);
     };
-    let Some(other_root) = make_cert("other root", "other root", &other_key, &other_key, ed, Some(true), rw.0, rw.1, 2) else {
+    let Some(other_root) = make_cert("other root", "other root", &other_key, &other_key, ed, Shape::CA, rw.0, rw.1, 2) else {
         return Ok(false);
     };
     // intermediates from the root downwards
@@ -136,13 +189,29 @@ pub fn do_x509_case(w: &mut World, a: u64, b: u64, c: u64) -> VResult<bool> {
     let mut issuer_key = root_key.clone();
     let mut ints: Vec<Cert> = vec![];
     let bad_at = r.usize_below(n_int + 1); // which certificate (0 = closest to the root ... n_int = leaf) carries the defect
+    let mut fault_detail = "";
     for i in 0..n_int {
         let Some(k) = key(ed) else { return Ok(false) };
         let wnd = window(&mut r);
         let name = format!("sim intermediate {i}");
         let signer = if fault == "wrong-issuer-signature" && bad_at == i { &other_key } else { &issuer_key };
-        let ca = if fault == "non-ca-issuer" && bad_at.min(n_int - 1) == i { Some(false) } else { Some(true) };
-        let Some(cert) = make_cert(&name, &issuer_name, &k, signer, ed, ca, wnd.0, wnd.1, 10 + i as u32) else {
+        let below = (n_int - 1 - i) as u32; // CA certificates under this one
+        let mut shape = Shape::valid_ca(&mut rs, below);
+        if fault == "non-ca-issuer" && bad_at.min(n_int - 1) == i {
+            // an issuer that may not issue: not a CA, no basicConstraints, a CA whose key usage lacks keyCertSign,
+            // a CA whose path length constraint is exceeded
+            let kind = rs.below(if below > 0 { 6 } else { 5 });
+            shape = match kind {
+                0 => Shape { bc: Some(false), pathlen: None, ku: KU_DIGITAL_SIGNATURE },
+                1 => Shape { bc: None, pathlen: None, ku: KU_DIGITAL_SIGNATURE },
+                2 => Shape { bc: None, pathlen: None, ku: KU_KEY_CERT_SIGN | KU_CRL_SIGN },
+                3 => Shape { bc: Some(true), pathlen: None, ku: KU_CRL_SIGN },
+                4 => Shape { bc: Some(true), pathlen: None, ku: KU_CRL_SIGN | KU_DIGITAL_SIGNATURE },
+                _ => Shape { bc: Some(true), pathlen: Some(below - 1), ku: KU_KEY_CERT_SIGN | KU_CRL_SIGN },
+            };
+            fault_detail = ["not-a-ca", "no-basic-constraints", "no-basic-constraints", "ca-without-key-cert-sign", "ca-without-key-cert-sign", "path-length-exceeded"][kind as usize];
+        }
+        let Some(cert) = make_cert(&name, &issuer_name, &k, signer, ed, shape, wnd.0, wnd.1, 10 + i as u32) else {
             return Ok(false);
         };
         ints.push(cert);
@@ -152,7 +221,7 @@ pub fn do_x509_case(w: &mut World, a: u64, b: u64, c: u64) -> VResult<bool> {
     let Some(leaf_key) = key(ed) else { return Ok(false) };
     let lw = window(&mut r);
     let signer = if fault == "wrong-issuer-signature" && bad_at == n_int { &other_key } else { &issuer_key };
-    let Some(leaf) = make_cert("sim member", &issuer_name, &leaf_key, signer, ed, None, lw.0, lw.1, 100) else {
+    let Some(leaf) = make_cert("sim member", &issuer_name, &leaf_key, signer, ed, Shape::LEAF, lw.0, lw.1, 100) else {
         return Ok(false);
     };
     // chain as sent: leaf first, then the intermediates from the leaf's issuer upwards
@@ -258,6 +327,9 @@ pub fn do_x509_case(w: &mut World, a: u64, b: u64, c: u64) -> VResult<bool> {
         "in-window"
     };
     *w.stats.probes.entry(format!("x509:{fault}:{time_case}")).or_default() += 1;
+    if !fault_detail.is_empty() {
+        *w.stats.probes.entry(format!("x509:issuer-{fault_detail}")).or_default() += 1;
+    }
     if fault != "none" {
         w.stats.fault(match fault {
             "wrong-issuer-signature" => "X-BAD-SIGNATURE",
@@ -280,7 +352,7 @@ pub fn do_x509_case(w: &mut World, a: u64, b: u64, c: u64) -> VResult<bool> {
         let sig = if structurally_valid {
             format!("x509-verdicts-differ:{fault}:{time_case}:{}", pattern.join(","))
         } else {
-            format!("x509-verdicts-differ:{fault}:{}", pattern.join(","))
+            format!("x509-verdicts-differ:{fault}{}{fault_detail}:{}", if fault_detail.is_empty() { "" } else { ":" }, pattern.join(","))
         };
         if w.known.iter().any(|k| *k == sig) {
             w.ext.known_hits.push(sig);
@@ -291,7 +363,7 @@ pub fn do_x509_case(w: &mut World, a: u64, b: u64, c: u64) -> VResult<bool> {
             "x509-verdicts-agree",
             sig,
             format!(
-                "the validators disagree on a {alg} chain with {n_int} intermediate(s), defect `{fault}`, validation time {t} ({time_case}): {}",
+                "the validators disagree on a {alg} chain with {n_int} intermediate(s), defect `{fault}` {fault_detail}, validation time {t} ({time_case}): {}",
                 verdicts.iter().map(|(n, ok, d)| format!("{n}: {}", if *ok { "accept".to_string() } else { format!("reject ({d})") })).collect::<Vec<_>>().join("; ")
             ),
         ));
@@ -302,9 +374,9 @@ pub fn do_x509_case(w: &mut World, a: u64, b: u64, c: u64) -> VResult<bool> {
             return Err(viol(
                 w,
                 "x509-verdict-correct",
-                format!("x509-verdict-wrong:{fault}:{time_case}:{}", if m { "should-accept" } else { "should-reject" }),
+                format!("x509-verdict-wrong:{fault}{}{fault_detail}:{time_case}:{}", if fault_detail.is_empty() { "" } else { ":" }, if m { "should-accept" } else { "should-reject" }),
                 format!(
-                    "all validators {} a {alg} chain with {n_int} intermediate(s), defect `{fault}`, validation time {t} ({time_case}); leaf window [{}, {}]",
+                    "all validators {} a {alg} chain with {n_int} intermediate(s), defect `{fault}` {fault_detail}, validation time {t} ({time_case}); leaf window [{}, {}]",
                     if verdicts[0].1 { "accept" } else { "reject" },
                     leaf.nb,
                     leaf.na
